@@ -62,14 +62,6 @@ def directionProblem0 (name : String) (tr ax cj : Theory) (axPre cjPre : String)
 def directionProblem (name : String) (tr ax cj : Theory) (axPre cjPre : String) : Problem :=
   (directionProblem0 name tr ax cj axPre cjPre).renameConflictingSymbols.uniqueNames
 
-/-- pairs of symbolic constants whose order `rename_conflicting_symbols` changes, per direction -/
-def strongRenameIssues (t : StrongTask) (fuel : Nat) : Option (List (String × String)) := do
-  let tr := transitionAxioms t
-  let left ← processTheory t fuel t.left
-  let right ← processTheory t fuel t.right
-  some ((directionProblem0 "forward" tr left right "left_" "right_").renameOrderIssues ++
-    (directionProblem0 "backward" tr right left "right_" "left_").renameOrderIssues)
-
 /-- (The Rust code interleaves the two programs' steps; in the `Option` monad the order of the
     independent steps is immaterial: the result is `none` iff some formula did not converge.) -/
 def strongProblems (t : StrongTask) (fuel : Nat) : Option (List Problem) := do
